@@ -247,7 +247,26 @@ def generate(ctx, batch, idx):
             b = r.choice(["hist", "hist_fail", "hist_ensure", "second_save", "clock", "pipe", "pipe", "pipe"])
             pre.append([b, r.randrange(2000)])
         tb = r.choice(["hist", "second_save", "hist_ensure", "pipe", "pipe", "pipe"])
-        return {"kind": "order", "target": [tb, r.randrange(2000)], "ops": pre, "font": key, "hashseed": r.randrange(1, 1 << 31)}
+        ti = r.randrange(2000)
+        if r.random() < 0.5:
+            # state leaking from one run to the next mostly stays inside one module: the target is a run
+            # of a uniformly chosen pipeline kind and most of the prefix is made of runs of that same kind
+            # (found by generating candidates, which is pure)
+            from props import c16_pipes
+
+            want = r.choice(sorted(set(c16_pipes.KINDS)))
+            same = []
+            for _ in range(400):
+                ci = r.randrange(2000)
+                if c16_pipes.generate(ctx, ctx.rng("pipe", ci), ci).get("pipe") == want:
+                    same.append(["pipe", ci])
+                    if len(same) >= 13:
+                        break
+            if len(same) >= 2:
+                tb, ti = same.pop()
+                pre = pre[: r.randint(0, 4)] + same
+                r.shuffle(pre)
+        return {"kind": "order", "target": [tb, ti], "ops": pre, "font": key, "hashseed": r.randrange(1, 1 << 31)}
     if batch == "clock":
         return {
             "kind": "clock",
@@ -647,7 +666,8 @@ def _unordered(xml):
     """Compiling may sort records into their canonical order in place (name records after an edit):
     the before/after comparison is therefore made on the multiset of dump lines with positional index
     attributes removed — content, not order. The firstGlyphIndex/lastGlyphIndex attributes of EBLC/CBLC
-    index subtables are recalculated data like the head bbox (the dump itself says so: "The
+    index subtables, and the strike-level startGlyphIndex / endGlyphIndex / index sizes and offsets, are
+    recalculated data like the head bbox (the dump itself says so: "The
     firstGlyphIndex and lastGlyphIndex values will be recalculated by the compiler"), stale after a
     subset until the next compile: they are masked, the glyph lists they are derived from are not."""
     global _INDEX_ATTR, _EBLC_RANGE
@@ -655,8 +675,8 @@ def _unordered(xml):
         import re
 
         _INDEX_ATTR = re.compile(r' index="\d+"')
-        _EBLC_RANGE = re.compile(r'(<eblc_index_sub_table_\d+ .*?) firstGlyphIndex="\d+" lastGlyphIndex="\d+"')
-    return sorted(_EBLC_RANGE.sub(r"\1", _INDEX_ATTR.sub("", ln.strip())) for ln in xml.splitlines() if ln.strip())
+        _EBLC_RANGE = re.compile(r'(<eblc_index_sub_table_\d+ .*?) firstGlyphIndex="\d+" lastGlyphIndex="\d+"|<(indexSubTableArrayOffset|indexTablesSize|numberOfIndexSubTables|startGlyphIndex|endGlyphIndex) value="\d+"/>')
+    return sorted(_EBLC_RANGE.sub(lambda m: m.group(1) or "<%s/>" % m.group(2), _INDEX_ATTR.sub("", ln.strip())) for ln in xml.splitlines() if ln.strip())
 
 
 def _dump_all(font):
@@ -859,6 +879,8 @@ def _fresh(ctx, keys, hashseed="0", timeout=None):
     import sys
     from sim import VERIF
 
+    if not keys:
+        return {}
     spec = ",".join("%s:%d" % (b, i) for b, i in keys)
     env = dict(os.environ, PYTHONHASHSEED=str(hashseed))
     cmd = [sys.executable, os.path.join(VERIF, "check"), ID, "--run-many", spec, "--seed", str(ctx.seed), "--tier", ctx.tier]
